@@ -50,7 +50,10 @@ DocBad(r, doc, schema, R, jsv) ==
       strict == M3(d, r.ty, r.env, Open \cap {"fractionalLiteralTruncated"}, TRUE)
   IN (IF v # "X" /\ jsv \in {"T", "F"} /\ v # jsv THEN {"calibration-mismatch"} ELSE {})
      \cup (IF v = "T" /\ doc.val # "T" THEN {"schema-valid-but-validator-rejects"} ELSE {})
-     \cup (IF v = "T" /\ doc.val = "T" /\ strict = "F" THEN {"schema-valid-with-undeclared-key"} ELSE {})
+     \* (a member in default mode that is no member in strict mode differs by an undeclared key; where the default reading is
+     \* itself contested - null / undefined leniency - the strict verdict says nothing about keys)
+     \cup (IF v = "T" /\ doc.val = "T" /\ strict = "F" /\ M3(d, r.ty, r.env, Open \cap {"fractionalLiteralTruncated"}, FALSE) = "T"
+           THEN {"schema-valid-with-undeclared-key"} ELSE {})
      \cup (IF v = "F" /\ strict = "T" /\ NullFree(d) THEN {"exact-member-is-schema-invalid"} ELSE {})
 
 PrintedBad(r, where, pr, defs, pre, suf, jsvs) ==
